@@ -3,13 +3,15 @@
 # check of its property there (VERIF_REPO / VERIF_OUT), so that /repo and /verif/evidence are left alone.
 # Prints one line per seed: CAUGHT / MISSED / INAPPLICABLE.
 export GOFLAGS=-mod=mod GOPROXY=off GOSUMDB=off GOTOOLCHAIN=local
-R=/tmp/regress; rm -rf $R; mkdir -p $R/out
+R=/tmp/regress; rm -rf $R; mkdir -p $R/out $R/home
+# the machinery is snapshotted too (binary, harness sources, known findings), so that work on /verif can go on meanwhile
+cp /verif/bin/vcheck $R/vcheck; cp -r /verif/harness $R/harness; cp /verif/known_findings.json $R/home/
 git -C /repo worktree add --detach $R/repo HEAD >/dev/null 2>&1 || { echo "cannot create worktree"; exit 2; }
 IDS=${@:-$(ls /verif/seeded)}
 for id in $IDS; do
   prop=$(echo $id | cut -c1-3)
   ( cd $R/repo && git checkout -q -- . && git apply /verif/seeded/$id/patch.diff ) 2>/dev/null || { echo "$id INAPPLICABLE"; continue; }
-  out=$(VERIF_REPO=$R/repo VERIF_OUT=$R/out /verif/bin/vcheck run -p $prop -tier quick 2>&1)
+  out=$(VERIF_REPO=$R/repo VERIF_OUT=$R/out VERIF_HARNESS=$R/harness VERIF_HOME=$R/home $R/vcheck run -p $prop -tier quick 2>&1)
   if echo "$out" | grep -q "^VIOLATION"; then echo "$id CAUGHT"; else echo "$id MISSED $(echo "$out" | grep -E '^(OK|CHECK)' | head -1 | cut -c1-120)"; fi
 done
 git -C /repo worktree remove --force $R/repo >/dev/null 2>&1; rm -rf $R
